@@ -11,12 +11,10 @@
   Status codes
     P*  proved for all inputs (no validity hypothesis)
     P   proved on the validity domain
-    P°  proved on the domain when the collection operand has no areal member (`thin`), else OPEN
-    O   open (correspondence only); every bounding-box early return on the path is proved sound
-        (`disjointBB_sound_point` / `disjointBB_sound_spec` / `polyPoly_shortcut_sound`); for the areal pairs one
-        direction is proved (`intersectsM_areal_sound`: `true` ⇒ the mask holds), what the body computes is characterised
-        exactly (`polyPoly_iff_boundary`), and the equality is proved modulo one named step
-        (`intersectsM_polygon_polygon_partial`)
+    O   open (correspondence only)
+  (C02Y: the cells that were O / P° for `intersects` — the 15 areal × areal pairs and collections with areal members — are
+   now P: `Geo.Proofs.C02Y.polyPoly_common` proves the connectedness step from `polyValid` through C07X
+   (`disjoint_of_ext_disjoint`), `Geo.Proofs.C02Y.intersectsM_common_all` repeats the dispatch without the `thin` hypothesis.)
 
   ──────────────────────────────────────────────────────────────────────────────────────────────────────────────
   INTERSECTS   `intersectsM a b`: the left operand is split into pieces, each piece asks `Y: Intersects<piece>`
@@ -38,27 +36,28 @@
         │   rows Ln, LS, MLS, MPt: `intersectsM_eq_spec_partial` (left operand thin); the nine linear cells also
         │   `intersectsM_linear_eq_spec` [P*], as segment pairs `intersectsM_linear_iff`
   Pg    │ polyCoord   polyLine    lsPoly      polyPoly    any polyCo. any lsPoly  any polyPo. polyPoly◦   polyPoly∘   isxColl
-        │ P           P           P           O           P           P           O           O           O           P°
+        │ P           P           P           P           P           P           P           P           P           P
   Rc    │ rectCoord   rectLine    any rectLi. polyPoly◦   any rectCo. any(rectLi) any polyPo◦ rectRect    polyPoly∘◦  isxColl
-        │ P           P           P           O           P           P           O           P           O           P°
+        │ P           P           P           P           P           P           P           P           P           P
   Tr    │ triCoord    polyLine∘   any polyL∘  polyPoly∘   any triCo.  any(polyL∘) any polyPo∘ polyPoly∘◦  polyPoly∘∘  isxColl
-        │ P           P           P           O           P           P           O           O           O           P°
+        │ P           P           P           P           P           P           P           P           P           P
   MPg   │ bbox; any member polygon q of a: the Pg row with q
-        │ P           P           P           O           P           P           O           O           O           P°
+        │ P           P           P           P           P           P           P           P           P           P
   GC    │ bbox; any member g of a: `intersectsM g b` (nested collections recurse)
-        │ P           P           P           P°          P           P           P°          P°          P°          P°
-        │   rows Pg, Rc, Tr, MPg, GC with a thin right operand: `intersectsM_eq_spec_partial` (right operand thin);
-        │   Rc × Rc: `intersectsM_rect_rect_eq_spec`
+        │ P           P           P           P           P           P           P           P           P           P
+        │   all rows: `intersectsM_eq_spec` / `intersectsM_iff_common` / `intersectsM_symm` (Props/C02, from
+        │   `Geo.Proofs.C02Y.intersectsM_all_eq_spec`); Rc × Rc also `intersectsM_rect_rect_eq_spec`
   (∘ = through `Triangle::to_polygon`, ◦ = through `Rect::to_polygon`; lsCoord = `lineStringCoord`;
    polyPoly p q = bbox; lsPoly q.ext p || any hole r of q: lsPoly r p || lsPoly p.ext q;  lsPoly cs p = bbox; any polyLine p s)
 
-  Summary intersects: 76 cells P / P* (all pairs with an operand among Pt, Ln, LS, MPt, MLS; Rc × Rc), 9 cells P°
-  (collection operand), 15 cells O = {Pg, MPg, Rc, Tr}² \ {Rc × Rc}, the pairs that run the `Polygon × Polygon` body.
-  What makes the proved cells work: "not `FF*FF****`" on the specification ⇔ the operands have a common point
-  (`isIntersects_iff_common_point_dom`), and every kernel except `polyPoly` is a point-set statement
-  (`lineCoord_iff`, `lineLine_iff`, `polyLine_iff`, `rectLine_iff`, `triLine_iff`, `rectRect_iff`, the `coordinate_position`
-  theorems). For `polyPoly` the missing step is "two valid polygons with a common point and disjoint boundaries: the
-  shell of one has a vertex in the other" (connectedness of a valid polygon), not attempted.
+  Summary intersects: 100 cells P / P* — every pair of the validity domain, collections (nested, with areal members) included.
+  What makes it work: "not `FF*FF****`" on the specification ⇔ the operands have a common point
+  (`isIntersects_iff_common_point_dom`), and every kernel is a point-set statement (`lineCoord_iff`, `lineLine_iff`,
+  `polyLine_iff`, `rectLine_iff`, `triLine_iff`, `rectRect_iff`, the `coordinate_position` theorems, and for `polyPoly`
+  `polyPoly_iff_common`: what the body computes is `polyPoly_iff_boundary`, and "two valid polygons (or `to_polygon` of a
+  Rect / Triangle) with a common point: a ring point of one lies in the other or a shell point of the other in the first"
+  is `valid_polygons_boundary_meets`, the contrapositive of C07X's `disjoint_of_ext_disjoint` — `nested_rings`,
+  `exterior_rings`, `windingE_const`).
 
   ──────────────────────────────────────────────────────────────────────────────────────────────────────────────
   CONTAINS     `containsM a b`
@@ -67,19 +66,30 @@
                                any ==, mlsContainsPoint, any polyContainsCoord, rectContainsCoord, triContainsCoord,
                                any member)                                        P   `containsM_geom_point`
                                (and `Point.is_within(a)`:                         P   `withinM_point_geom`)
-  a = Pt, b ≠ Pt (9 cells)     `pointContains p b` ("b non-empty, every coordinate = p")      O  (would follow from the containment
-                               analogue of `isIntersects_iff_common_point`: "`EI = EB = F` ⇔ every point of b lies in a"; that needs
-                               a real point beside a face sample, not attempted)
-  Ln × Ln                      `lineContainsLine`      O as a mask; point-set form P* (`lineContainsLine_iff_subset`,
-                                                       `lineContainsLine_degenerate`)
-  Ln × LS, LS × Ln, LS × LS    `lineContainsLineString`, `lsContainsLine`, `lsContainsLs`     O
-  MPg × MPt                    `mpolyContainsMultiPoint` (no point Outside, one Inside)       O
+  a = Pt, b ≠ Pt (9 cells)     `pointContains p b` ("b non-empty, every coordinate = p")      P   `containsM_point_geom`
+                               (nested collections included; outside the domain false: a one-coordinate LineString `[p]` is
+                               "contained" by the code and has no point in the specification, `pointContains_one_coordinate_witness`)
+  Ln × Ln                      `lineContainsLine`                                             P   `containsM_line_line`
+                               (point-set form P*: `lineContainsLine_iff_subset`, `lineContainsLine_degenerate`)
+  Ln × LS                      `lineContainsLineString`                                       P   `containsM_line_lineString`
+  LS × Ln, LS × LS             `lsContainsLine` (two-pass truncation loop), `lsContainsLs`    O   the specification side is P*
+                               (`isContains_lineString_line`: the mask ⇔ every point of the segment is on the line string), so
+                               the equality is reduced to that statement about the loop (`containsM_lineString_line_partial`);
+                               the loop invariant of `cutStep` is not proved
+  MPg × MPt                    `mpolyContainsMultiPoint` (no point Outside, one Inside)       P   `containsM_multiPolygon_multiPoint`
   MPg × {Ln LS Pg MLS MPg Rc Tr GC} (8 cells)  `rhs.relate(self).is_within()`                 P*  `containsM_multiPolygon_via_relate`
-  Rc × Rc                      `rectContainsRect`      O as a mask (false for degenerate operands, K7:
-                                                       `rectContainsRect_degenerate_witness`); point-set form P (`rectContainsRect_iff`)
-  Rc × Pg                      `rectContainsPolygon`                                          O
+  Rc × Rc                      `rectContainsRect`                                             P   `containsM_rect_rect`
+                               (false for degenerate operands, K7: `rectContainsRect_degenerate_witness`; point-set form
+                               `rectContainsRect_iff`)
+  Rc × Pg                      `rectContainsPolygon`                                          O   (needs: a face sample inside a valid
+                               polygon whose coordinates lie in the closed box is inside the box, and "valid ⇒ signed area ≠ 0")
   the remaining 66 cells       `impl_contains_from_relate!`: `relate(a, b).is_contains()`     P*  `containsM_via_relate`
                                (the mask on the matrix by definition; that `relate` computes the specification's matrix is C01)
+
+  Summary contains: 97 cells P / P* (74 by definition through `relate`), 3 cells O (LS × Ln, LS × LS, Rc × Pg).
+  What makes the proved hand-written cells work: for a second operand without areal member the mask `T*****FF*` on the
+  specification is a point-set statement (`isContains_iff_point_set`: some point interior to both, every point of B in A —
+  face samples are outside such a B); for Rect × Rect the face samples are located exactly (`rect_windingE`).
 
   coordinate_position (10 types): P `coordPos_eq_locate_dom_partial` — every type and every collection of the domain, away from
   the open known finding K9 (MultiLineString end point shared by an even number of open members).
